@@ -42,6 +42,24 @@ def main():
                     print(f"REPRODUCED: {name} of {q} differs from the PCHIP interpolation at the midpoints: "
                           f"{arr[:, qi].real.tolist()} vs {ref.tolist()}")
                     return 1
+    # column order: column i belongs to qubit_ids[i] (register order), whatever the labels' sort order and whatever
+    # the order of the sample dictionary
+    for ids in (("probe", "control", "target", "ancilla", "bus"), ("q10", "q2", "q1"), (3, 0, 2, 1), ("b", "a")):
+        D = 5
+        times = [0., 1., 2.5, 4., 5.]
+        mid = 0.5 * (np.array(times[:-1]) + np.array(times[1:]))
+        per = {q: {"amp": [0.5 + 0.7 * k + 0.1 * t for t in range(D)], "det": [float(k) - 0.3 * t for t in range(D)],
+                   "phase": [0.2 * (k + 1)] * D} for k, q in enumerate(ids)}
+        for order in (list(ids), sorted(ids, key=str), list(reversed(ids))):
+            sig = {q: per[q] for q in order}
+            om, de, ph = _extract_omega_delta_phi(FakeSamples(sig), tuple(ids), times)
+            for qi, q in enumerate(ids):
+                for arr, name in ((om, "amp"), (de, "det"), (ph, "phase")):
+                    ref = PchipInterpolator(np.arange(D, dtype=float), np.array(per[q][name]), extrapolate=True)(mid)
+                    if arr.shape[1] != len(ids) or not np.allclose(arr[:, qi].real.numpy(), ref, atol=1e-9):
+                        print(f"REPRODUCED: qubit_ids {ids}, samples listed as {order}: column {qi} of {name} is not the "
+                              f"interpolation of the samples of {q!r}: {arr[:, qi].real.tolist()} vs {ref.tolist()}")
+                        return 1
     import subprocess
     q = subprocess.run([sys.executable, os.path.join(os.path.dirname(os.path.abspath(__file__)), "c22_traj.py")],
                        capture_output=True, text=True, timeout=900)
